@@ -210,6 +210,12 @@ func (group *Group) kickPull(sessionId string) bool {
 // 2. 外部命令，比如http api
 // 3. 定时器，比如pull的连接断了，通过定时器可以重启触发pull
 func (group *Group) pullIfNeeded() (string, error) {
+	// 有观众时刷新时间戳：否则在两次定时器之间加入又离开的观众不会被记录，
+	// 下一次定时器会用很久以前的时间戳判断"没人观看"，在 autoStopPullAfterNoOutMs 到达前就把pull停掉
+	if group.hasOutSession() {
+		group.pullProxy.lastHasOutTs = time.Now().UnixNano() / 1e6
+	}
+
 	if flag, err := group.shouldStartPull(); !flag {
 		return "", err
 	}
